@@ -735,7 +735,11 @@ class EStructuralFeature(ETypedElement):
         eGenericType = getattr(self, 'eGenericType', None)
         name = getattr(self, 'name', None)
         if eGenericType:
-            return f'<{self.__class__.__name__} {name}: {eGenericType.eRawType.raw_types()}>'
+            # the raw type is a type parameter (with bounds) or a classifier
+            raw_type = eGenericType.eRawType
+            if hasattr(raw_type, 'raw_types'):
+                raw_type = raw_type.raw_types()
+            return f'<{self.__class__.__name__} {name}: {raw_type}>'
         return f'<{self.__class__.__name__} {name}: {eType}>'
 
 
